@@ -681,12 +681,11 @@ theorem segFinish_idem (g : Seg) (ss : BitVec 64) (st st' : WsdSt) (hm : st'.mem
     simp only [this, Bool.false_eq_true, if_false]
   · simp only [h, if_false, Bool.false_eq_true]
 
-/-- the side conditions of one segment: its start is not 0 (unless it is the program-header segment
-    or was at offset 0 already), and no member meets the F13 trigger -/
+/-- the side conditions of one segment: its start is not 0 (unless it was at offset 0 already), and
+    no member meets the F13 trigger -/
 def SegOk (phoff : BitVec 64) (pe pn : BitVec 16) (lay : Layout) (g : Seg) : Prop :=
   ∀ p, segStartOf phoff pe pn lay g = .ok p →
-    (lseg_is_phdr g.stype (BitVec.ofNat 16 g.secs.length) = false → lseg_offset0 g.offsetSet g.offset = false →
-      p.2.1 ≠ 0) ∧
+    (lseg_offset0 g.offsetSet g.offset = false → p.2.1 ≠ 0) ∧
     LoopOk .c64 g p.2.1 g.secs { lay := p.1, mem := p.2.2.1, file := p.2.2.2 }
 
 /-- **one segment, in step**: laying out the finished segment `d` again, on the final sections,
@@ -708,7 +707,7 @@ theorem layoutSegment_resave {F : List SecBuf} {phoff : BitVec 64} {pe pn : BitV
     simp only [e1, e2] at a b
     exact ⟨a, b⟩
   obtain ⟨hnz, hloop⟩ := hok p1 s1
-  obtain ⟨p2, s2', ep, lk⟩ := segStartOf_resave hl hF1 s1 f1 f2 f3 f4 f5 f6 hnz
+  obtain ⟨p2, s2', ep, lk⟩ := segStartOf_resave hl hF1 s1 f1 f2 f3 f4 f5 f6 (fun _ h => hnz h)
   rw [s2'] at s2
   simp only [Except.ok.injEq] at s2
   subst s2
